@@ -11,6 +11,7 @@ import (
 	"math/rand"
 	"runtime/debug"
 	"sort"
+	"strings"
 
 	"github.com/cockroachdb/pebble"
 	"github.com/cockroachdb/pebble/vfs"
@@ -100,8 +101,60 @@ func runStore(o *Out, r *rand.Rand, thorough bool, args []string) {
 	for h := 0; h < nHist; h++ {
 		storeHistory(o, r, h, nPuts, thorough)
 	}
+	twoStores(o, r)
 	aliasHistory(o, r, thorough)
 	concSchedules(o, r)
+}
+
+// twoStores: two stores in one process (the portal node opens one per network). Store B receives a few small items;
+// store A is then filled until it has pruned at least once. B's radius and content must be what they were.
+func twoStores(o *Out, r *rand.Rand) {
+	for rep := 0; rep < 3; rep++ {
+		open := func() (storage.ContentStorage, *pebble.DB) {
+			db, err := pebble.Open("", &pebble.Options{FS: vfs.NewMem()})
+			if err != nil {
+				panic(err)
+			}
+			var node enode.ID
+			r.Read(node[:])
+			st, err := spebble.NewStorage(storage.PortalStorageConfig{StorageCapacityMB: 1, NodeId: node, NetworkName: "verif"}, db)
+			if err != nil {
+				panic(err)
+			}
+			return st, db
+		}
+		a, _ := open()
+		b, dbB := open()
+		okB := 0
+		for i := 0; i < 5; i++ {
+			id := make([]byte, 32)
+			r.Read(id)
+			if b.Put(nil, id, genBytes(1000, i)) == nil {
+				okB++
+			}
+		}
+		before := observe(dbB).snap(b)
+		prunedA := 0
+		for i := 0; i < 40; i++ {
+			id := make([]byte, 32)
+			r.Read(id)
+			_ = a.Put(nil, id, genBytes(45000, i))
+			if radiusHex(a) != strings.Repeat("ff", 32) {
+				prunedA = 1
+			}
+		}
+		after := observe(dbB).snap(b)
+		id := make([]byte, 32)
+		r.Read(id)
+		id[0] = 0 // whatever B's node id: a later put into B is judged by B's own radius
+		late := "ok"
+		if err := b.Put(nil, id, genBytes(100, 7)); err != nil {
+			late = "refused"
+		}
+		fresh, _ := open()
+		o.Case(fmt.Sprintf("twostore rep=%d putsB=%d prunedA=%d", rep, okB, prunedA),
+			fmt.Sprintf("same=%d radiusB=%s lateput=%s fresh=%s", b2i(before == after), radiusHex(b), late, radiusHex(fresh)))
+	}
 }
 
 // concSchedules forces the two interleavings of two puts that the step model of C05 distinguishes:
